@@ -118,3 +118,23 @@ def camel_case_drops_trailing_separator(r):
                                 f"keeps its underscore and the REST required-field default is keyed `from_` instead of the wire's `from`")
                     return
     r.need(False, "gapic.utils.case.to_camel_case", "unrecognised implementation shape: cannot decide whether a trailing '_' is dropped")
+
+
+PER_SEGMENT = "'.'.join((_S_ + '_' if _S_ in utils.RESERVED_NAMES else _S_ for _S_ in self.{attr}.split('.')))"
+
+
+def per_segment_disambiguation(qual: str, attr: str):
+    """(ok, shown): the property `qual` returns its dotted `self.<attr>` with every reserved SEGMENT suffixed by one underscore -
+    either directly, or by delegating to FieldHeader(self.<attr>).disambiguated when that property does so itself."""
+    m = _pm()
+    fi = m.func(qual)
+    rets = [n for n in ast.walk(fi.node) if isinstance(n, ast.Return)]
+    if len(rets) != 1:
+        return False, f"{len(rets)} returns", fi
+    v = rets[0].value
+    if pmatch(PER_SEGMENT.format(attr=attr), v) is not None:
+        return True, ast.unparse(v), fi
+    if qual != "gapic.schema.wrappers.FieldHeader.disambiguated" and pmatch(f"FieldHeader(self.{attr}).disambiguated", v) is not None:
+        ok, shown, _ = per_segment_disambiguation("gapic.schema.wrappers.FieldHeader.disambiguated", "raw")
+        return ok, ast.unparse(v) + " -> " + shown, fi
+    return False, ast.unparse(v), fi
